@@ -62,10 +62,28 @@ static int runHammer(uint64_t seed, int threads, long long ops, int nBuckets, in
     TranspositionTable tt(1 << 16);
     // keys: same top-16 and low-16 bits per bucket (=> same bucket for this size), different middle bits
     std::vector<uint64_t> keys;
+    long long nTwins = 0;
     Rng r0{seed * 77 + 5};
     for (int b = 0; b < nBuckets; b++) {
         uint64_t top = r0.next() & 0xffff000000000000ull, low = r0.next() & 0xfffcull;
-        for (int k = 0; k < keysPer; k++) keys.push_back(top | ((r0.next() & 0xffffffffull) << 16) | low);
+        for (int k = 0; k < keysPer; k++) {
+            // every second key is the "twin" of the key before it: it differs by exactly the data-word bits that one in-place field
+            // update (generation refresh at a probe hit, busy flag, bound type) changes. A slot holds key^data and data: rewriting
+            // only one of the two words makes the slot validate for such a twin and return a record never stored for it (seeded C08-G)
+            // Only in the single-threaded configuration: with several threads a reader can legitimately see the two words of a
+            // slot from two different whole-entry stores (that is what the key^data encoding is for), and would decode exactly such
+            // a twin - a collision that needs two keys 4 bits apart in one bucket and is not a defect of the table.
+            if (threads == 1 && (k & 1) && !keys.empty()) {
+                TranspositionTable::TTEntry ea, eb;
+                int which = r0.below(4);
+                if (which <= 1) { ea.setGeneration(r0.below(16)); eb.setGeneration((ea.getGeneration() + 1 + r0.below(15)) & 15); }
+                else if (which == 2) { ea.setBusy(false); eb.setBusy(true); }
+                else { ea.setType(1 + r0.below(3)); eb.setType(1 + (ea.getType() + r0.below(2)) % 3); }
+                uint64_t d = ea.getData() ^ eb.getData();
+                if (d != 0 && (d & ~0x0000ffffffff0000ull) == 0) { keys.push_back(keys.back() ^ d); nTwins++; continue; }
+            }
+            keys.push_back(top | ((r0.next() & 0xffffffffull) << 16) | low);
+        }
     }
     std::atomic<long long> hits(0), misses(0), inserts(0), gens(0);
     // The engine changes the generation only between searches (no thread is probing then), so the harness does
@@ -103,7 +121,7 @@ static int runHammer(uint64_t seed, int threads, long long ops, int nBuckets, in
     tt.nextGeneration(); gens++;
     }
     stat["hammer_hits"] = hits; stat["hammer_misses"] = misses; stat["hammer_inserts"] = inserts; stat["hammer_generations"] = gens;
-    stat["hammer_threads"] = threads; stat["hammer_keys"] = (long long)keys.size(); stat["hammer_buckets"] = nBuckets;
+    stat["hammer_twin_keys"] = nTwins; stat["hammer_threads"] = threads; stat["hammer_keys"] = (long long)keys.size(); stat["hammer_buckets"] = nBuckets;
     printf("SAMPLE hammer: %d threads, %d buckets x %d keys, %lld hits verified, %lld misses, %lld inserts\n", threads, nBuckets, keysPer, (long long)hits, (long long)misses, (long long)inserts);
     finish();
     return 0;
